@@ -114,12 +114,14 @@ def harness(cn, op):
 
 
 class RelUnit:
-    def __init__(self, container, op, maxcap, spec, info, gen, timeout=3600, case=None):
+    def __init__(self, container, op, maxcap, spec, info, gen, timeout=3600, case=None, rlen=RLEN, extra_assume=None):
         self.container, self.op, self.maxcap, self.spec, self.info, self.gen = container, op, maxcap, spec, info, gen
         self.timeout = timeout
         self.case = case
         self.fn = '%s__%s' % (container, op[0])
-        self.id = '%s/REL/B%d/len%d%s' % (self.fn, maxcap, RLEN, '/case%d' % case[0] if case else '')
+        self.rlen = rlen
+        self.extra_assume = extra_assume
+        self.id = '%s/REL/B%d/len%d%s%s' % (self.fn, maxcap, rlen, '/case%d' % case[0] if case else '', '/restricted' if extra_assume else '')
         self.lockcov = False
 
     def source(self):
@@ -128,7 +130,9 @@ class RelUnit:
         h = harness(self.container, self.op)
         if self.case:
             h = h.replace('    s2 = s1;', '    __CPROVER_assume(%s);\n    s2 = s1;' % self.case[1].replace('self->', 's1.').replace('(self)', '(&s1)'))
-        return csrc + '\n#define RLEN %d\n' % RLEN + engine.PREAMBLE + '\n' + h + '\n'
+        if self.extra_assume:
+            h = h.replace('    s2 = s1;', '    __CPROVER_assume(%s);\n    s2 = s1;' % self.extra_assume, 1)
+        return csrc + '\n#define RLEN %d\n' % self.rlen + engine.PREAMBLE + '\n' + h + '\n'
 
     def key(self):
         cst = engine.hash_files(engine.files_under(os.path.join(engine.VERIF, 'cstl')) + engine.files_under(os.path.join(engine.VERIF, 'contracts'), {'.h'}))
@@ -195,7 +199,7 @@ def run_rel(unit, want_trace=False):
                 o = dict(base, id='%s/%s' % (unit.id, desc.split(' [')[0].split(': ', 1)[1][:60]), kind='relational', tags=m.group(1).split(), expr=desc)
             elif m and desc.startswith('std.'):
                 o = dict(base, id='%s/%s@%s:%d' % (unit.id, desc.split(' [')[0], base['function'], base['line']), kind='std-precondition', tags=['C08'])
-            elif base['file'] in (unit.spec.header, 'spec_common.h') or base['file'].endswith('_base.h') or base['file'].startswith('ttl_view'):
+            elif base['file'] in engine.SPEC_HEADERS():
                 o = dict(base, id='%s/spec-sanity:%s' % (unit.id, prop), kind='spec-sanity', tags=[])
             else:
                 o = dict(base, id='%s/safety:%s' % (unit.id, prop), kind='safety', tags=['C08'])
